@@ -37,7 +37,7 @@ ASSUMPTIONS = [
     "bytes/bytearray vs array branches: either reading accepted (A17)",
     "closure is decided for return_named_type=True; for the other reader options only tag correctness and closure when the write-back succeeds (A15)",
 ]
-N = {"quick": 64000, "thorough": 1600000}
+N = {"quick": 160000, "thorough": 2400000}
 TIME_LIMIT = {"quick": 40, "thorough": 560}
 SHARDS = 16
 REACH = {
